@@ -32,7 +32,7 @@ TIERS = {
     "thorough": {"shards": 16, "cases": 40000, "timeout": 3000},
 }
 FLOORS = {
-    "quick": {"counts": {"vertex_pairs_compared": 30000, "steps": 3000, "shape_steps": 600}, "keys": 60},
+    "quick": {"counts": {"vertex_pairs_compared": 30000, "steps": 3000, "parametric_not_starting_at_the_tool": 60, "shape_steps": 600}, "keys": 60},
     "thorough": {"counts": {"vertex_pairs_compared": 700000, "shape_steps": 15000}, "keys": 75},
 }
 
